@@ -86,21 +86,21 @@ type Section struct {
 
 // Result is what one worker reports and what the parent merges.
 type Result struct {
-	Evaluations int64              `json:"evaluations"`
-	Nontrivial  int64              `json:"distinct_nontrivial"`
-	States      int64              `json:"states"`
-	Transitions int64              `json:"transitions"`
-	Traces      int64              `json:"traces_validated_against_impl"`
-	Counters    map[string]int64   `json:"counters,omitempty"`
-	Outcomes    map[string]int64   `json:"outcomes,omitempty"`
-	Samples     []json.RawMessage  `json:"samples,omitempty"`
-	Violations  []Violation        `json:"violations,omitempty"`
-	NViolations int64              `json:"n_violations"`
-	Sections    []Section          `json:"sections,omitempty"`
-	Unclaimed   map[string]int64   `json:"unclaimed,omitempty"`
-	KnownHits   map[int]int64      `json:"known_hits,omitempty"` // index into known findings -> count
-	Cut         bool               `json:"cut"` // deadline hit
-	EngineError string             `json:"engine_error,omitempty"`
+	Evaluations int64               `json:"evaluations"`
+	Nontrivial  int64               `json:"distinct_nontrivial"`
+	States      int64               `json:"states"`
+	Transitions int64               `json:"transitions"`
+	Traces      int64               `json:"traces_validated_against_impl"`
+	Counters    map[string]int64    `json:"counters,omitempty"`
+	Outcomes    map[string]int64    `json:"outcomes,omitempty"`
+	Samples     []json.RawMessage   `json:"samples,omitempty"`
+	Violations  []Violation         `json:"violations,omitempty"`
+	NViolations int64               `json:"n_violations"`
+	Sections    []Section           `json:"sections,omitempty"`
+	Unclaimed   map[string]int64    `json:"unclaimed,omitempty"`
+	KnownHits   map[int]int64       `json:"known_hits,omitempty"` // index into known findings -> count
+	Cut         bool                `json:"cut"`                  // deadline hit
+	EngineError string              `json:"engine_error,omitempty"`
 	StateSet    map[string]struct{} `json:"-"`
 }
 
@@ -114,20 +114,21 @@ type Run struct {
 	Replaying bool
 	Only      int64 // if >0 run only the case with this sequence number
 
-	counter  int64
-	deadline time.Time
-	res      Result
-	mu       sync.Mutex
+	counter    int64
+	subCounter int64
+	deadline   time.Time
+	res        Result
+	mu         sync.Mutex
 
-	curSeq     atomic.Int64
-	curStart   atomic.Int64
-	curPayload atomic.Value // func() any
-	tracePath  string
-	outPath    string
-	maxViol    int
+	curSeq      atomic.Int64
+	curStart    atomic.Int64
+	curPayload  atomic.Value // func() any
+	tracePath   string
+	outPath     string
+	maxViol     int
 	sampleEvery int64
-	sec        *Section
-	knownRE    []*regexp.Regexp
+	sec         *Section
+	knownRE     []*regexp.Regexp
 }
 
 func (r *Run) Quick() bool    { return r.Tier != "thorough" }
@@ -208,6 +209,24 @@ func (r *Run) Guard(payload any, fn func()) {
 	}()
 	r.res.Evaluations++
 	fn()
+}
+
+// Alive tells the watchdog that a long-running case (an exploration inside
+// one Guard) is making progress.
+func (r *Run) Alive() {
+	if r.curStart.Load() != 0 {
+		r.curStart.Store(time.Now().UnixNano())
+	}
+}
+
+// Own is Mine without the section bookkeeping of a new case: it is used to
+// split the subtrees of one exploration over the workers.
+func (r *Run) Own() bool {
+	r.subCounter++
+	if r.Only > 0 {
+		return true
+	}
+	return int(r.subCounter%int64(r.ShardN)) == r.ShardK
 }
 
 func (r *Run) Eval(n int)  { r.res.Evaluations += int64(n) }
